@@ -396,3 +396,70 @@ func TestVerif_C14_ManagerExhaustive(t *testing.T) {
 func TestVerifKF_C14_ResumeWithoutPause(t *testing.T) {
 	propC14(t, t, c14Case{Workers: 1, Ops: []c14Op{{Kind: "resume"}}})
 }
+
+// Stress: Pause() racing with workers that exit (Unsubscribe). The window between Pause's iteration over the
+// subscribers and the non-blocking send is a few instructions wide: it needs volume, not variety. A panic here
+// ("send on closed channel") kills the whole crawler, so the process dying is the failure signal.
+func TestVerif_C14_ExitRaceStress(t *testing.T) {
+	defer veriflib.Flush()
+	if veriflib.Replaying() {
+		var rc c14Case
+		if !veriflib.ReplayCase("C14/exit-race-stress", &rc) {
+			t.Skip()
+		}
+	}
+	stats.Init()
+	rounds := veriflib.N("C14_STRESS_ROUNDS", 20000, 300000)
+	veriflib.Journal("C14", "C14/exit-race-stress", map[string]any{"workers": 4, "ops": []string{"pause concurrent with the exit of every worker", "repeated for many rounds"}})
+	var viol string
+	done := 0
+	synctest.Test(t, func(st *testing.T) {
+		for i := 0; i < rounds && viol == ""; i++ {
+			manager = &pauseManager{}
+			ctx, cancel := context.WithCancel(context.Background())
+			exited := make(chan struct{}, 4)
+			for w := 0; w < 4; w++ {
+				go func() {
+					chans := Subscribe()
+					defer func() { Unsubscribe(chans); exited <- struct{}{} }()
+					for {
+						select {
+						case <-ctx.Done():
+							return
+						case <-chans.PauseCh:
+							select {
+							case chans.ResumeCh <- struct{}{}:
+							case <-ctx.Done():
+								return
+							}
+						}
+					}
+				}()
+			}
+			synctest.Wait()
+			paused := make(chan struct{})
+			go func() { Pause("verif"); close(paused) }()
+			cancel()
+			for w := 0; w < 4; w++ {
+				<-exited
+			}
+			<-paused
+			resumed := make(chan struct{})
+			go func() { Resume(); close(resumed) }()
+			synctest.Wait()
+			select {
+			case <-resumed:
+			default:
+				viol = fmt.Sprintf("round %d: Resume() after every worker exited during a pause is still blocked", i)
+				time.Sleep(time.Second)
+			}
+			done++
+		}
+	})
+	veriflib.JournalDone()
+	if viol != "" {
+		veriflib.Fail(t, "C14", "C14/exit-race-stress", c14Case{Workers: 4}, nil, "%s", viol)
+	}
+	veriflib.Record("C14/exit-race-stress", fmt.Sprintf("rounds=%d shard=%d", done, veriflib.ShardIndex()), true, []string{fmt.Sprintf("rounds:%d", done)}, func() any { return map[string]any{"rounds": done} })
+	veriflib.Record("C14/exit-race-stress", fmt.Sprintf("rounds=%d shard=%d b", done, veriflib.ShardIndex()), true, nil, nil)
+}
